@@ -10,6 +10,7 @@ CONSTANTS
   SaveAsSet = {"none"}
   ContainMode = "ancestry"
   DestMode = "normalised"
+  CopyMode = "content"
   DenyFactories = {"simple_file", "glob_file", "first_file", "foreach_collect", "simple_command", "command_with_args", "foreach_execute", "container_execute", "container_collect"}
   DenyMax = 3
 INVARIANT DenyRespected
